@@ -153,7 +153,7 @@ TRIMS = ['full', 'one-row', 'no-rows', 'one-col']
 # how the ordered maps of the grid (metadata, columns, column metadata) reached their order:
 # 'append' = keys added in final order; 'relocate' = first key deleted and re-inserted at the front,
 # so the creation order of the backing storage differs from the map's order
-HISTS = ['append', 'relocate']
+HISTS = ['append', 'relocate', 'rows-reordered', 'overwritten']
 # how the version was declared: a string, the library's shared constant object, or not at all (detected)
 VERARGS = ['str', 'const', 'detect']
 
@@ -221,9 +221,19 @@ def execute(hs, prop, fmt, oracle, ver, shape, multi, form, ents, absent, trim='
     fails = []
     try:
         objs = {s: O.build(ents[s].n, hs, ents[s].hint) for s in slots}
-        g = assemble(hs, ver, objs, absent, verarg, nm) if shape == 'full' else flat_assemble(hs, ver, objs, absent, verarg, nm)
+        first = dict(objs, gmeta='placeholder', cmeta='placeholder') if hist == 'overwritten' else objs
+        g = assemble(hs, ver, first, absent, verarg, nm) if shape == 'full' else flat_assemble(hs, ver, first, absent, verarg, nm)
         if hist == 'relocate':
             g = rehistory(hs, g)
+        elif hist == 'rows-reordered':
+            # every row dict holds its members in the REVERSE of the column order (a row is a dict: member order means nothing)
+            for i in range(len(g)):
+                r = g[i]
+                g[i] = dict((k, r[k]) for k in reversed(list(r.keys())))
+        elif hist == 'overwritten':
+            # the two metadata payloads were first something else (a plain string) and are assigned in place afterwards
+            g.metadata[nm['g']] = objs['gmeta']
+            g.column[nm['col']][nm['c']] = objs['cmeta']
         g = trim_grid(hs, g, trim)
     except Exception as e:  # noqa
         return 'build-raised', [('grid-construction-raised', {'exc': exc_name(e)}, {'exc': repr(e)})]
@@ -321,15 +331,16 @@ def _has_value(o, val, top=False):
     return o == val
 
 
-def run_case(ch, st, prop, fmt, oracle, ver, shape, multi, form, which):
+def run_case(ch, st, prop, fmt, oracle, ver, shape, multi, form, which, pin=None):
     import hszinc as hs
+    pin = dict(pin or ())
     cat = cat_for(ver, which)
     slots = SLOTS3 if (ver == '3.0' and shape == 'full') else SLOTS2
     ents = {s: ch.choose(s, [DEFAULT] + cat) for s in slots}
     absent = ch.choose('absent', [False, True])
     trim = ch.choose('trim', TRIMS)
     hist = ch.choose('hist', HISTS)
-    verarg = ch.choose('verarg', VERARGS)
+    verarg = pin['verarg'] if 'verarg' in pin else ch.choose('verarg', VERARGS)
     names = ch.choose('names', list(range(len(NAMESETS))))
     if trim != 'full' and absent:
         absent = False
@@ -345,22 +356,23 @@ def run_case(ch, st, prop, fmt, oracle, ver, shape, multi, form, which):
         return
     # minimise: a failure with several deviations that already occurs with one of them alone is the
     # smaller case's finding (explored too, since exploration is downward closed)
-    ndev = len(devs) + (1 if absent else 0) + (1 if trim != 'full' else 0) + (1 if hist != 'append' else 0) + (1 if verarg != 'str' else 0) + (1 if names else 0)
+    base_ver = pin.get('verarg', 'str')
+    ndev = len(devs) + (1 if absent else 0) + (1 if trim != 'full' else 0) + (1 if hist != 'append' else 0) + (1 if verarg != base_ver else 0) + (1 if names else 0)
     if ndev >= 2:
         singles = []
         none = {k: DEFAULT for k in slots}
         for s, e in devs:
-            singles.append(({k: (e if k == s else DEFAULT) for k in slots}, False, 'full', 'append', 'str', 0))
+            singles.append(({k: (e if k == s else DEFAULT) for k in slots}, False, 'full', 'append', base_ver, 0))
         if absent:
-            singles.append((none, True, 'full', 'append', 'str', 0))
+            singles.append((none, True, 'full', 'append', base_ver, 0))
         if trim != 'full':
-            singles.append((none, False, trim, 'append', 'str', 0))
+            singles.append((none, False, trim, 'append', base_ver, 0))
         if hist != 'append':
-            singles.append((none, False, 'full', hist, 'str', 0))
-        if verarg != 'str':
+            singles.append((none, False, 'full', hist, base_ver, 0))
+        if verarg != base_ver:
             singles.append((none, False, 'full', 'append', verarg, 0))
         if names:
-            singles.append((none, False, 'full', 'append', 'str', names))
+            singles.append((none, False, 'full', 'append', base_ver, names))
         for sents, sabs, strim, shist, sver, snames in singles:
             _, sf = execute(hs, prop, fmt, oracle, ver, shape, multi, form, sents, sabs, strim, shist, sver, snames)
             if sf and sf[0][0] == fails[0][0]:
@@ -508,12 +520,15 @@ def run_property(ctx, prop, fmt, oracle, module_name):
         plan += [('3.0', 'full', 1, f, 'full', 1) for f in forms[1:]]
         if fmt == 'json':
             plan += [('3.0', 'full', 1, 'text', 'full', 2)]
+    # the same with the version NOT declared (detected from the content): an undeclared grid is the common way to build one
+    plan = [p + (None,) for p in plan] + [('3.0', 'flat', 1, 'text', 'tiny' if ctx.quick else 'reps', 2, (('verarg', 'detect'),)),
+                                          ('2.0', 'flat', 1, 'text', 'tiny' if ctx.quick else 'reps', 2, (('verarg', 'detect'),))]
     bounds = []
-    for ver, shape, multi, form, which, d in plan:
+    for ver, shape, multi, form, which, d, pin in plan:
         before = st.c.get('executions', 0)
-        explore(module_name, 'run_case', d, ctx.seed, ctx.jobs, st, args=(prop, fmt, oracle, ver, shape, multi, form, which))
+        explore(module_name, 'run_case', d, ctx.seed, ctx.jobs, st, args=(prop, fmt, oracle, ver, shape, multi, form, which, pin))
         bounds.append({'ver': ver, 'skeleton': shape, 'grids': multi, 'input_form': form, 'catalogue': which,
-                       'payloads': len(cat_for(ver, which)), 'max_deviations': d,
+                       'payloads': len(cat_for(ver, which)), 'max_deviations': d, 'pinned': dict(pin or ()),
                        'executions': st.c.get('executions', 0) - before})
     scalar_space(st, fmt, oracle)
     from mc.explore import pmap, chunks
